@@ -55,13 +55,21 @@ def extract(repo):
     var = m.group(1)
     out += coq_def_Z("hs_small_limit", int(m.group(2)))
     out += coq_def_list("hs_fmt_small", unescape(m.group(3)))
-    m = need(r"for\s*\(\s*%s\s*/=\s*(\d+)\s*,\s*(%s)\s*=\s*(\d+)\s*;\s*%s\s*>=\s*(\d+)\s*;\s*\2\s*\+\+\s*\)\s*%s\s*/=\s*(\d+)\s*;"
-             % (var, ID, var, var), f, "humansize: the `/= 100 ... >= 10000 ... /= 1000` loop")
-    out += coq_def_Z("hs_first_div", int(m.group(1)))
-    out += coq_def_Z("hs_shift_init", int(m.group(3)))
-    out += coq_def_Z("hs_loop_limit", int(m.group(4)))
-    out += coq_def_Z("hs_loop_div", int(m.group(5)))
-    cnt = m.group(2)
+    # the loop, written either as the `for` of the original or as an equivalent `while`
+    pat_for = (r"for\s*\(\s*%s\s*/=\s*(?P<fd>\d+)\s*,\s*(?P<cnt>%s)\s*=\s*(?P<si>\d+)\s*;\s*%s\s*>=\s*(?P<ll>\d+)\s*;"
+               r"\s*(?P=cnt)\s*\+\+\s*\)\s*\{?\s*%s\s*/=\s*(?P<ld>\d+)\s*;" % (var, ID, var, var))
+    pat_while = (r"%s\s*/=\s*(?P<fd>\d+)\s*;\s*(?P<cnt>%s)\s*=\s*(?P<si>\d+)\s*;\s*while\s*\(\s*%s\s*>=\s*(?P<ll>\d+)\s*\)"
+                 r"\s*\{\s*(?:%s\s*/=\s*(?P<ld>\d+)\s*;\s*(?P=cnt)\s*\+\+\s*;|(?P=cnt)\s*\+\+\s*;\s*%s\s*/=\s*(?P<ld2>\d+)\s*;)\s*\}"
+                 % (var, ID, var, var, var))
+    m = re.search(pat_for, f, re.S) or re.search(pat_while, f, re.S)
+    if not m:
+        raise NotFound("humansize: the `/= 100 ... >= 10000 ... /= 1000` loop")
+    g = m.groupdict()
+    out += coq_def_Z("hs_first_div", int(g["fd"]))
+    out += coq_def_Z("hs_shift_init", int(g["si"]))
+    out += coq_def_Z("hs_loop_limit", int(g["ll"]))
+    out += coq_def_Z("hs_loop_div", int(g.get("ld") or g.get("ld2")))
+    cnt = g["cnt"]
     m = need(r"=\s*%s\s*\[\s*%s\s*\]\s*;" % (STR, cnt), f, "humansize: prefix string indexed by the shift count")
     out += "(* the string literal including its terminating NUL: an index past it is a Fault *)\n"
     out += coq_def_list("hs_prefixes", unescape(m.group(1)) + [0])
